@@ -391,7 +391,7 @@ def _segments_meet_only_at_corners(curve, gap_rel=0.03) -> bool:
 def simple_curve(draw, nk="int", degrees=(1,), center=(0.0, 0.0), rlo=6.0, rhi=14.0,
                  cw=False, templates=True, nseg=(3, 7)):
     curve = draw(_simple_curve(nk, degrees, center, rlo, rhi, cw, templates, nseg))
-    assume(no_collapsed_segment(curve))
+    assume(no_collapsed_segment(curve) and clearly_curved(curve))
     return curve
 
 
@@ -408,6 +408,24 @@ def _simple_curve(draw, nk, degrees, center, rlo, rhi, cw, templates, nseg):
     if templates and tuple(degrees) == (1,) and center == (0.0, 0.0) and draw(st.integers(0, 3)) == 0:
         return draw(template_polygon(nk, cw))
     return draw(star_curve(nk, center, rlo, rhi, nseg, degrees, cw))
+
+
+def clearly_curved(curve) -> bool:
+    """no curved piece is within the library's clean() tolerance of a lower
+    degree (snapping a template to a coarse grid can put a control point on
+    the chord): the constructor would legitimately degree-reduce it and the
+    spec would no longer describe the object"""
+    for seg in curve:
+        if len(seg) == 3:
+            d2 = (seg[0][0] - 2 * seg[1][0] + seg[2][0], seg[0][1] - 2 * seg[1][1] + seg[2][1])
+            if rg.norm(d2) < 0.05:
+                return False
+        if len(seg) == 4:
+            d3 = (seg[3][0] - 3 * seg[2][0] + 3 * seg[1][0] - seg[0][0],
+                  seg[3][1] - 3 * seg[2][1] + 3 * seg[1][1] - seg[0][1])
+            if rg.norm(d3) < 0.3:
+                return False
+    return True
 
 
 def no_collapsed_segment(curve) -> bool:
